@@ -19,7 +19,7 @@
 EXTENDS ReadPath, SequencesExt, FiniteSetsExt, Json, IOUtils
 
 CONSTANTS Doubles,      \* "none" | "few" | "all"
-          KMax,         \* transient: the k-th call raises, k in 1..KMax
+          KSet,         \* transient: the k-th storage call on the file raises, k in KSet
           Reduced       \* TRUE: quick tier (fresh handle only for non-transient damage)
 
 MC_Metas     == <<"v2", "v3">>
@@ -50,7 +50,7 @@ Opts ==
   \cup {[api |-> a, vopt |-> "default", filt |-> "none"] : a \in {"count", "cursnap"}}
 
 SinglesOf(f) ==
-  {[dmg |-> [Ok EXCEPT ![f] = cl], k |-> k] : cl \in ClassesOf(Kind(f)), k \in 0..KMax}
+  {[dmg |-> [Ok EXCEPT ![f] = cl], k |-> k] : cl \in ClassesOf(Kind(f)), k \in {0} \cup KSet}
 Singles  == UNION {SinglesOf(f) : f \in AllFiles}
 Singles1 == {x \in Singles : (x.k > 0) <=> (\E f \in AllFiles : x.dmg[f] = "transient")}
 
